@@ -174,10 +174,20 @@ def ClientState.delayBlock (cs : ClientState) : UInt64 :=
   | .eth => cs.blockDelay
   | .bsc => UInt64.ofNat (cs.nValidators / 2 + 1)
 
+/-- `ConsensusState` of the ETH / BSC client as it is stored (both messages have exactly these three fields).
+    `height` is the message's own `Height` field: header updates set it to the header height, but `CreateClient` /
+    `UpgradeClient` store an externally supplied state verbatim and `ValidateBasic` checks nothing, so it is
+    independent of the key the state is stored under. The verification functions must not use it. -/
+structure ConsState where
+  timestamp : UInt64
+  height : Height
+  root : Bytes                 -- ConsensusState.Root (any length)
+  deriving Repr, DecidableEq
+
 /-- what `GetConsensusState(store, cdc, height)` finds under `consensusStates/{height}` -/
 inductive ConsEntry where
   | corrupt                    -- bytes that do not unmarshal to this client's ConsensusState
-  | root (r : Bytes)           -- ConsensusState.Root (any length)
+  | state (c : ConsState)
   deriving Repr, DecidableEq
 
 abbrev ConsStore := List (Height × ConsEntry)
@@ -293,10 +303,11 @@ def verify (env : Env) (cs : ClientState) (store : ConsStore) (h : Height) (proo
     match store.get h with
     | none => .err "consensus-state"
     | some .corrupt => .err "consensus-state"
-    | some (.root consRoot) =>
+    | some (.state cons) =>
       -- delayBlock := cs.Header.Height.RevisionHeight - height.GetRevisionHeight()   (uint64, wraps)
+      -- `height` is the proof height = the key the state was found under, NOT `cons.height`
       let delayBlock : UInt64 := cs.head.rh - h.rh
       if delayBlock < cs.delayBlock then .err "delay" else
-      verifyMerkleProof env p consRoot cs.contract value (slotOf env k src dst seq)
+      verifyMerkleProof env p cons.root cs.contract value (slotOf env k src dst seq)
 
 end TM.EvmProof
